@@ -257,3 +257,115 @@ func (b *binder) P(tmpl string) string {
 }
 
 func bp(tmpl string) string { return curBinder.P(tmpl) }
+
+// ---------------------------------------------------------------------------------------------
+// helper extraction: rules anchored at a function must keep holding when part of its body moves into
+// an unexported helper of the same package.
+
+// dcall is a call found in fn or (through static same-package calls) in a helper, with the chain of
+// call sites leading to it.
+type dcall struct {
+	c     ssa.CallInstruction
+	chain []ssa.CallInstruction
+}
+
+// deepCalls returns the calls matching pred in fn, its function literals and, up to depth levels,
+// in same-package functions it calls statically.
+func deepCalls(fn *ssa.Function, pred func(ssa.CallInstruction) bool, depth int) []dcall {
+	var out []dcall
+	seen := map[*ssa.Function]bool{}
+	var visit func(f *ssa.Function, chain []ssa.CallInstruction, d int)
+	visit = func(f *ssa.Function, chain []ssa.CallInstruction, d int) {
+		if seen[f] {
+			return
+		}
+		seen[f] = true
+		for _, ff := range WithAnon(f) {
+			instrsOf(ff, func(in ssa.Instruction) {
+				c, ok := in.(ssa.CallInstruction)
+				if !ok {
+					return
+				}
+				if pred(c) {
+					out = append(out, dcall{c, append([]ssa.CallInstruction{}, chain...)})
+				}
+				if d < depth {
+					if cal := c.Common().StaticCallee(); cal != nil && cal.Pkg == fn.Pkg && len(cal.Blocks) > 0 && cal != fn {
+						visit(cal, append(append([]ssa.CallInstruction{}, chain...), c), d+1)
+					}
+				}
+			})
+		}
+	}
+	visit(fn, nil, 0)
+	return out
+}
+
+// path resolves the access path of v (a value in the function containing d.c) into the context of
+// the top-level function by substituting helper parameters with the actual arguments up the chain.
+func (d dcall) path(v ssa.Value) string {
+	p := pathOf(v)
+	for i := len(d.chain) - 1; i >= 0; i-- {
+		cs := d.chain[i]
+		cal := cs.Common().StaticCallee()
+		if cal == nil {
+			break
+		}
+		args := cs.Common().Args
+		for k, prm := range cal.Params {
+			n := prm.Name()
+			if k < len(args) && (p == n || strings.HasPrefix(p, n+".")) {
+				p = pathOf(args[k]) + strings.TrimPrefix(p, n)
+				break
+			}
+		}
+	}
+	return p
+}
+
+// delegateFor: fn hands value p to a same-package helper; returns the helper, its parameter that
+// receives p and the call site.
+func delegateFor(fn *ssa.Function, p ssa.Value) (*ssa.Function, *ssa.Parameter, ssa.CallInstruction) {
+	var rf *ssa.Function
+	var rp *ssa.Parameter
+	var rc ssa.CallInstruction
+	instrsOf(fn, func(in ssa.Instruction) {
+		c, ok := in.(ssa.CallInstruction)
+		if !ok || rf != nil {
+			return
+		}
+		cal := c.Common().StaticCallee()
+		if cal == nil || cal.Pkg != fn.Pkg || len(cal.Blocks) == 0 {
+			return
+		}
+		for k, a := range c.Common().Args {
+			if sameVal(a, p) && k < len(cal.Params) {
+				rf, rp, rc = cal, cal.Params[k], c
+			}
+		}
+	})
+	return rf, rp, rc
+}
+
+// delegateForPath is delegateFor for a value identified by its access path (e.g. string(h)).
+func delegateForPath(fn *ssa.Function, path string) (*ssa.Function, *ssa.Parameter, ssa.CallInstruction) {
+	var rf *ssa.Function
+	var rp *ssa.Parameter
+	var rc ssa.CallInstruction
+	instrsOf(fn, func(in ssa.Instruction) {
+		c, ok := in.(ssa.CallInstruction)
+		if !ok || rf != nil {
+			return
+		}
+		cal := c.Common().StaticCallee()
+		if cal == nil || cal.Pkg != fn.Pkg || len(cal.Blocks) == 0 {
+			return
+		}
+		for k, a := range c.Common().Args {
+			if pathOf(a) == path && k < len(cal.Params) {
+				rf, rp, rc = cal, cal.Params[k], c
+			}
+		}
+	})
+	return rf, rp, rc
+}
